@@ -530,14 +530,15 @@ theorem sim_sdCallLate (s s' : St) (cid : Nat) (c : Scan) (bl : Bool) (dropped :
 exited and the exporter was shut down — the scanner's checks pass as for the first call -/
 theorem sim_sdReturnLate (s s' : St) (cid : Nat) (c : Scan) (dropped : Nat) (hC : InvC s) (hD : InvD s)
     (hF : InvF s) (h : Sim s c) (hown : ∃ pre, c.sdPres[c.sdOkRets]? = some pre)
-    (hs : step s (.sdReturnLate cid) = some s') (hd : s.droppedIds.length ≤ dropped) :
+    (hs : step s (.sdReturnLate cid) = some s') (hd : s.droppedIds.length ≤ dropped) (hT : s.sdRetErr = false) :
     Sim s' ((emitRaw s (.sdReturnLate cid)).foldl (scanStep s.blocking dropped) c) := by
   obtain ⟨h1, h2, h3, h4, h5, h6, h7, h8, h9, h10, h11, h12⟩ := h
   simp only [step] at hs
   split at hs
   · rename_i hg
+    have hgo : s.sdRetOk = true := by rcases hg.1 with h | h; exact h; rw [hT] at h; cases h
     simp only [Option.some.injEq] at hs; subst hs
-    have hw := hC.shutExited (hC.retSd hg.1)
+    have hw := hC.shutExited (hC.retSd hgo)
     have hin : c.inExport = false := by rw [h2, (hC.exitedClean hw).2.1]; rfl
     have hdl := delivered_of_covered s.blocking s.sdPre s.exported s.droppedIds dropped (hF.exitedOK hw) hd hD.dropNB
     rw [← h1, ← h5] at hdl
@@ -590,12 +591,13 @@ theorem own_pre_sdReturnOk (s s' : St) (c : Scan) (hsd : SimSd s c) (hs : step s
   · simp at hs
 
 theorem own_pre_sdReturnLate (s s' : St) (cid : Nat) (c : Scan) (hC : InvC s) (hsd : SimSd s c)
-    (hs : step s (.sdReturnLate cid) = some s') :
+    (hs : step s (.sdReturnLate cid) = some s') (hT : s.sdRetErr = false) :
     ∃ pre, c.sdPres[c.sdOkRets]? = some pre ∧ pre ∈ sdPresOf s := by
   simp only [step] at hs
   split at hs
   · rename_i hg
-    have hne : s.sd ≠ .none := by simp [hC.retSd hg.1]
+    have hgo : s.sdRetOk = true := by rcases hg.1 with h | h; exact h; rw [hT] at h; cases h
+    have hne : s.sd ≠ .none := by simp [hC.retSd hgo]
     apply own_pre_exists s c hsd hne
     have hex : ∃ c0 ∈ s.sds, c0.ret = false := by
       have := hg.2
@@ -603,7 +605,7 @@ theorem own_pre_sdReturnLate (s s' : St) (cid : Nat) (c : Scan) (hC : InvC s) (h
       obtain ⟨c0, hc0, _, hr⟩ := this
       exact ⟨c0, hc0, hr⟩
     have := countP_lt_of_exists s.sds hex
-    simp only [sdOkCount, hg.1, if_true]
+    simp only [sdOkCount, hgo, if_true]
     omega
   · simp at hs
 
@@ -671,10 +673,17 @@ theorem simSd_sd (s s' : St) (l : Lbl) (c : Scan) (bl : Bool) (d : Nat) (hL : In
 
 /-- one step of the LTS, followed by the scanner on the events it emits, preserves the simulation -/
 theorem sim_step (s s' : St) (l : Lbl) (c : Scan) (dropped : Nat) (hI : Inv s) (hS : InvS s) (h : Sim s c)
-    (hsd : SimSd s c) (hs : step s l = some s') (hd : s.droppedIds.length ≤ dropped) :
+    (hsd : SimSd s c) (hs : step s l = some s') (hd : s.droppedIds.length ≤ dropped)
+    (hT : s.sdRetErr = false) (hT' : s'.sdRetErr = false) :
     Sim s' ((emit s l).foldl (scanStep s.blocking dropped) c) := by
   rw [emit_of_step hs]
   cases l
+  case sdTimeout =>
+    exfalso
+    simp only [step] at hs
+    split at hs
+    · simp only [Option.some.injEq] at hs; subst hs; simp at hT'
+    · simp at hs
   case send id => exact sim_send s s' id c _ dropped h hs
   case endUnsampled id => exact sim_endUnsampled s s' id c _ dropped h hs
   case wExportStart => exact sim_wExportStart s s' c _ dropped hI.c h hs
@@ -693,8 +702,8 @@ theorem sim_step (s s' : St) (l : Lbl) (c : Scan) (dropped : Nat) (hI : Inv s) (
     exact sim_sdReturnOk s s' c dropped hI.c hI.d hI.f h ⟨pre, hpre⟩ hs hd
   case sdCallLate cid => exact sim_sdCallLate s s' cid c _ dropped h hs
   case sdReturnLate cid =>
-    obtain ⟨pre, hpre, _⟩ := own_pre_sdReturnLate s s' cid c hI.c hsd hs
-    exact sim_sdReturnLate s s' cid c dropped hI.c hI.d hI.f h ⟨pre, hpre⟩ hs hd
+    obtain ⟨pre, hpre, _⟩ := own_pre_sdReturnLate s s' cid c hI.c hsd hs hT
+    exact sim_sdReturnLate s s' cid c dropped hI.c hI.d hI.f h ⟨pre, hpre⟩ hs hd hT
   all_goals exact sim_silent s s' _ c h hs (by simp)
 
 theorem simSd_step (s s' : St) (l : Lbl) (c : Scan) (bl : Bool) (d : Nat) (hL : InvL s) (hsim : Sim s c)
@@ -764,7 +773,7 @@ theorem delivered_own_of_no_late (s : St) (dropped : Nat) (hI : Inv s) (hw : s.w
 
 theorem f41_step (s s' : St) (l : Lbl) (c : Scan) (dropped : Nat) (hI : Inv s) (hsim : Sim s c) (hsd : SimSd s c)
     (hf : c.f41 = true → LateEnd_applies s = true) (hs : step s l = some s')
-    (hd : s.droppedIds.length ≤ dropped) :
+    (hd : s.droppedIds.length ≤ dropped) (hT : s.sdRetErr = false) :
     ((emit s l).foldl (scanStep s.blocking dropped) c).f41 = true → LateEnd_applies s' = true := by
   rw [emit_of_step hs]
   intro hnew
@@ -775,7 +784,9 @@ theorem f41_step (s s' : St) (l : Lbl) (c : Scan) (dropped : Nat) (hI : Inv s) (
       rcases hl with hl | ⟨cid, hl⟩ <;> subst hl <;> simp only [step] at hs <;> split at hs
       · rename_i hg; exact ⟨hI.c.shutExited hg.1, rfl⟩
       · simp at hs
-      · rename_i hg; exact ⟨hI.c.shutExited (hI.c.retSd hg.1), rfl⟩
+      · rename_i hg
+        have hgo : s.sdRetOk = true := by rcases hg.1 with h | h; exact h; rw [hT] at h; cases h
+        exact ⟨hI.c.shutExited (hI.c.retSd hgo), rfl⟩
       · simp at hs
     rw [hw.2, List.foldl_cons, List.foldl_nil] at hnew
     cases hold : c.f41 with
@@ -801,30 +812,46 @@ structure FullSim (s : St) (c : Scan) : Prop where
   sd : SimSd s c
   f41 : c.f41 = true → LateEnd_applies s = true
 
-/-- the simulation holds along every history of the model, for every reported counter that covers the dropped ids -/
+/-- `sdRetErr` (the winning Shutdown call returned its context's error) is never reset -/
+theorem step_sdRetErr_mono (s s' : St) (l : Lbl) (hs : step s l = some s') (h : s.sdRetErr = true) :
+    s'.sdRetErr = true := by
+  cases l <;> simp only [step] at hs
+  all_goals (
+    repeat' (split at hs)
+    all_goals (try (simp at hs))
+    all_goals (try subst hs)
+    all_goals (first | exact h | simp_all))
+
+/-- the simulation holds along every history of the model in which no Shutdown context has expired (`sdRetErr = false`
+in the last state, hence in every state of the run), for every reported counter that covers the dropped ids -/
 theorem fullSim_reachableH {cap maxB : Nat} {blocking : Bool} (hpos : 1 ≤ maxB) (dropped : Nat) (s : St)
-    (h : List Ev) (hr : ReachableH cap maxB blocking s h) (hd : s.droppedIds.length ≤ dropped) :
+    (h : List Ev) (hr : ReachableH cap maxB blocking s h) (hd : s.droppedIds.length ≤ dropped)
+    (hT : s.sdRetErr = false) :
     FullSim s (h.foldl (scanStep blocking dropped) {}) := by
   induction hr with
   | init => exact ⟨sim_init cap maxB blocking, simSd_init cap maxB blocking, by simp⟩
   | @step s s' h l hr' hs ih =>
+    have hT0 : s.sdRetErr = false := by
+      cases he : s.sdRetErr with
+      | false => rfl
+      | true => rw [step_sdRetErr_mono s s' l hs he] at hT; cases hT
     have hreach := hr'.reachable
     have hI := inv_reachable cap maxB blocking hpos s hreach
     have hS := invS_reachable hreach
     have hd' : s.droppedIds.length ≤ dropped := Nat.le_trans (step_dropped_mono s s' l hs) hd
     have hbl : s.blocking = blocking := (reachable_cfg hreach).2.2
-    obtain ⟨i1, i2, i3⟩ := ih hd'
+    obtain ⟨i1, i2, i3⟩ := ih hd' hT0
     rw [List.foldl_append]
-    have a1 := sim_step s s' l _ dropped hI hS i1 i2 hs hd'
+    have a1 := sim_step s s' l _ dropped hI hS i1 i2 hs hd' hT0 hT
     have a2 := simSd_step s s' l _ blocking dropped hI.l i1 i2 hs
-    have a3 := f41_step s s' l _ dropped hI i1 i2 i3 hs hd'
+    have a3 := f41_step s s' l _ dropped hI i1 i2 i3 hs hd' hT0
     rw [hbl] at a1 a3
     exact ⟨a1, a2, a3⟩
 
 theorem sim_reachableH {cap maxB : Nat} {blocking : Bool} (hpos : 1 ≤ maxB) (dropped : Nat) (s : St) (h : List Ev)
-    (hr : ReachableH cap maxB blocking s h) (hd : s.droppedIds.length ≤ dropped) :
+    (hr : ReachableH cap maxB blocking s h) (hd : s.droppedIds.length ≤ dropped) (hT : s.sdRetErr = false) :
     Sim s (h.foldl (scanStep blocking dropped) {}) :=
-  (fullSim_reachableH hpos dropped s h hr hd).sim
+  (fullSim_reachableH hpos dropped s h hr hd hT).sim
 
 /-! ### facts about the scanner alone and about the events the model emits -/
 
